@@ -21,11 +21,12 @@ RulesIn(c, L) == LET I == {j \in 1..Len(c.runs) : c.runs[j].logic = L}
 
 Failures(c) ==
   LET badp == {p \in Pairs :
-                 OutcomeIn(c, p[2]) = "valid" /\
-                 (OutcomeIn(c, p[1]) = "invalid" \/ (c.propositional = 1 /\ OutcomeIn(c, p[1]) \notin {"valid", "absent"}))}
+                 \* outcomes cut by the harness step cap / watchdog ("limit") are no verdicts and claim nothing;
+                 \* that propositional arguments never hit a limit of the prover's own is C03's clause
+                 OutcomeIn(c, p[2]) = "valid" /\ OutcomeIn(c, p[1]) = "invalid"}
       q == SetToSeq(badp)
   IN [j \in 1..Len(q) |-> [id |-> c.id, argstr |-> c.argstr, stronger |-> q[j][1], weaker |-> q[j][2],
-                            clause |-> IF OutcomeIn(c, q[j][1]) = "invalid" THEN "ExtensionMonotone" ELSE "ExtensionExactOnProp",
+                            clause |-> IF c.propositional = 1 THEN "ExtensionExactOnProp" ELSE "ExtensionMonotone",
                             outcome_stronger |-> OutcomeIn(c, q[j][1]), declared |-> q[j] \in DeclSet,
                             rules_weaker |-> RulesIn(c, q[j][2]), rules_stronger |-> RulesIn(c, q[j][1])]]
 
